@@ -132,9 +132,25 @@ func distinctObjs(a, b string) bool {
 }
 
 func distinctIdx(a, b string) bool {
+	if isStrLitName(a) && isStrLitName(b) {
+		// string literals: one constant per distinct string (strLit), asserted pairwise distinct
+		return a != b
+	}
 	x, ok1 := constTermInt(a)
 	y, ok2 := constTermInt(b)
 	return ok1 && ok2 && x != y
+}
+
+func isStrLitName(s string) bool {
+	if !strings.HasPrefix(s, "str_") || len(s) == 4 {
+		return false
+	}
+	for _, ch := range s[4:] {
+		if ch < '0' || ch > '9' {
+			return false
+		}
+	}
+	return true
 }
 
 // rdObj: contents (Array Int S) of object obj in heap h.
